@@ -15,7 +15,7 @@
 (* 1/2, and two values outside [0,1]), integers for int, j/64 otherwise.   *)
 (*                                                                         *)
 (* Model checked here (design level, on PlyWriter "fixed"):                *)
-(*   ModelHeaderDescribesBody, ModelRoundTrip, ModelGapIsReal.             *)
+(*   ModelHeaderDescribesBody, ModelRoundTrip.                             *)
 (* Emit prints each finished case once as JSON; field "risky" tells that   *)
 (* the "pinned" variant of the writer model breaks RoundTrip on it.        *)
 (***************************************************************************)
@@ -122,7 +122,7 @@ ChooseOpt ==
     /\ \E o \in OptIds :
           /\ Writers([topo |-> shape.topo, idx |-> idx,
                       attrs |-> [i \in DOMAIN attrs |-> [n |-> AttrTable[attrs[i]].n, ar |-> AttrTable[attrs[i]].ar]]],
-                     OptTable[o]) # <<>>
+                     OptTable[o], "fixed") # <<>>
           /\ opt' = o
     /\ stage' = "done"
     /\ UNCHANGED <<shape, idx, attrs>>
@@ -149,20 +149,18 @@ ModelOK(variant, fmt) ==
     /\ RoundTrip(MeshOf(SrcMesh), Denote(f, "lat", D), Opts, "lat", D)
 
 Done == stage = "done"
-Gap == PointTexCoordUnclaimed(MeshOf(SrcMesh), Opts)
 
 \* design level: the layout rules always produce a header that describes the body ...
 ModelHeaderDescribesBody ==
     Done => LET f == ModelFile("fixed", "binary_little_endian") IN
             WellFormedFile(f, "lat") /\ Denotable(f) /\ Representable(f, "lat", D)
-\* ... whose denotation is the source, except where the layout has no place for the data
-ModelRoundTrip == Done => (ModelOK("fixed", "binary_little_endian") \/ Gap)
-ModelGapIsReal == (Done /\ Gap) => ~ModelOK("fixed", "binary_little_endian")
+\* ... whose denotation is the source
+ModelRoundTrip == Done => ModelOK("fixed", "binary_little_endian")
 
 Risky == ~ModelOK("pinned", "binary_little_endian")
 
 Emit == ~Done \/ PrintT(ToJson([kind |-> "rt", mode |-> "lat", D |-> D, mesh |-> SrcMesh, opts |-> Opts,
-                                  optid |-> opt, gap |-> Gap, risky |-> Risky]))
+                                  optid |-> opt, risky |-> Risky]))
 
 \* leaf-only emission for -simulate (same text, different name for the cfg)
 EmitLeaf == Emit
